@@ -168,9 +168,17 @@ macro_rules! c09_basic {
             }
         }
         let mut space = DfsSpace::new(g);
+        // a workspace that was never sized for this graph (Default) must give the same answers: it is brought
+        // up to size by reset_map alone
+        let mut unsized_space = DfsSpace::default();
         for a in 0..abs.n {
             for b in 0..abs.n {
                 let want = o.r0[a][b];
+                if let Some(r) = $ctx.g("has_path_connecting (DfsSpace::default())", &desc, || has_path_connecting(g, enc.id(a), enc.id(b), Some(&mut unsized_space))) {
+                    if r != want {
+                        $ctx.viol("has_path_connecting (DfsSpace::default())", "differs from reachability", format!("{} from {} to {} got {}", desc(), a, b, r));
+                    }
+                }
                 if let Some(r) = $ctx.g("has_path_connecting", &desc, || has_path_connecting(g, enc.id(a), enc.id(b), None)) {
                     if r != want {
                         $ctx.viol("has_path_connecting", "differs from reachability", format!("{} from {} to {} got {}", desc(), a, b, r));
@@ -214,8 +222,9 @@ macro_rules! c09_directed {
             if abs.n > 0 {
                 let _ = $ctx.g("has_path_connecting", &desc, || has_path_connecting(g, enc.id(0), enc.id(abs.n - 1), Some(&mut space)));
             }
-            for k in 0..3 {
-                let res = $ctx.g("toposort", &desc, || if k == 0 { toposort(g, None) } else { toposort(g, Some(&mut space)) });
+            let mut unsized_space = DfsSpace::default();
+            for k in 0..4 {
+                let res = $ctx.g("toposort", &desc, || if k == 0 { toposort(g, None) } else if k == 3 { toposort(g, Some(&mut unsized_space)) } else { toposort(g, Some(&mut space)) });
                 if let Some(res) = res {
                     let r2 = match res {
                         Ok(v) => Ok(v.iter().map(|x| enc.abs(*x)).collect::<Vec<usize>>()),
